@@ -30,6 +30,17 @@ def bound_names_in(expr):
     return out
 
 
+def _always_exits(stmts):
+    if not stmts:
+        return False
+    last = stmts[-1]
+    if isinstance(last, (ast.Raise, ast.Return)):
+        return True
+    if isinstance(last, ast.If):
+        return _always_exits(last.body) and _always_exits(last.orelse)
+    return False
+
+
 def clone(node, repl=None):
     """structural copy of an AST (fields only: no parent links), substituting nodes by id"""
     repl = repl or {}
@@ -113,6 +124,11 @@ class Flow:
         # dominance: the block holding s must (transitively) hold ``at``
         block_owner = getattr(s, "_parent", None)
         anc = [at] + list(parents(at))
+        # an assignment in a try body whose handlers all leave the function dominates what follows the try
+        while isinstance(block_owner, ast.Try) and any(x is s for x in block_owner.body) and not any(a is block_owner for a in anc) \
+                and all(_always_exits(h.body) for h in block_owner.handlers) and not block_owner.orelse:
+            s = block_owner
+            block_owner = getattr(s, "_parent", None)
         if not any(a is block_owner for a in anc):
             return None
         # s must not sit in a different branch of the owner than ``at`` (e.g. if-body vs else)
